@@ -16,16 +16,34 @@ KeyOf(s) == [depth |-> Len(Shapes[s]), pfp |-> Ref(Name(s), "pfp", 4),
              cn |-> IF Shapes[s] = <<>> THEN Idx(FALSE, 0) ELSE Last(Shapes[s]),
              chain |-> Ref(Name(s), "chain", 32), key |-> Sum(<<Ref(Name(s), "k", 32)>>)]
 
-T == Text(net, fam, KeyOf(shape), prv)
-Init == /\ net \in Nets /\ fam \in Families /\ prv \in BOOLEAN /\ shape \in 1..Len(Shapes)
+\* header shapes: the master key's chain code and key under header fields at their byte boundaries - depth is an
+\* unsigned byte (0, 127, 128, 255), the parent fingerprint four arbitrary bytes, the child number ser32 of an
+\* index up to 2^31-1, hardened or not.  Such keys arise from derivation at those depths; here they are written down.
+Hdrs == << [depth |-> 0,   pfp |-> <<0, 0, 0, 0>>,         cn |-> Idx(FALSE, 0)],
+           [depth |-> 127, pfp |-> <<255, 254, 253, 252>>, cn |-> Idx(TRUE, 2147483647)],
+           [depth |-> 128, pfp |-> <<128, 0, 0, 1>>,       cn |-> Idx(FALSE, 16777216)],
+           [depth |-> 255, pfp |-> <<0, 0, 0, 128>>,       cn |-> Idx(TRUE, 0)],
+           [depth |-> 200, pfp |-> <<1, 2, 3, 4>>,         cn |-> Idx(FALSE, 2147483647)] >>
+KeyH(h) == [depth |-> Hdrs[h].depth, pfp |-> B(Hdrs[h].pfp), cn |-> Hdrs[h].cn,
+            chain |-> Ref(Name(1), "chain", 32), key |-> Sum(<<Ref(Name(1), "k", 32)>>)]
+NShapes == Len(Shapes) + Len(Hdrs)
+KeyAt(s) == IF s <= Len(Shapes) THEN KeyOf(s) ELSE KeyH(s - Len(Shapes))
+
+T == Text(net, fam, KeyAt(shape), prv)
+Init == /\ net \in Nets /\ fam \in Families /\ prv \in BOOLEAN /\ shape \in 1..NShapes
         /\ Defines(net, fam)
-        /\ PrintT(ToJson([k |-> "text", net |-> net, fam |-> fam, prv |-> prv, path |-> Shapes[shape],
-                          text |-> Text(net, fam, KeyOf(shape), prv),
-                          readers |-> Readers(Text(net, fam, KeyOf(shape), prv))]))
+        /\ IF shape <= Len(Shapes)
+           THEN PrintT(ToJson([k |-> "text", net |-> net, fam |-> fam, prv |-> prv, path |-> Shapes[shape],
+                               text |-> Text(net, fam, KeyOf(shape), prv),
+                               readers |-> Readers(Text(net, fam, KeyOf(shape), prv))]))
+           ELSE PrintT(ToJson([k |-> "hdrtext", net |-> net, fam |-> fam, prv |-> prv,
+                               depth |-> Hdrs[shape - Len(Shapes)].depth, pfp |-> Hdrs[shape - Len(Shapes)].pfp,
+                               cnh |-> Hdrs[shape - Len(Shapes)].cn.h, cnv |-> <<Hdrs[shape - Len(Shapes)].cn.v \div 65536, Hdrs[shape - Len(Shapes)].cn.v % 65536>>,
+                               text |-> T, readers |-> Readers(T)]))
 Next == UNCHANGED vars
 Spec == Init /\ [][Next]_vars
 
-RoundTrip == RoundTrips(net, fam, KeyOf(shape), prv)
+RoundTrip == RoundTrips(net, fam, KeyAt(shape), prv)
 SelfReads == <<net, fam>> \in Readers(T)
 \* on its own network a text is read by its own family only
 OwnFamilyOnly == \A f \in Families : Accepts(net, f, T) <=> f = fam
